@@ -172,7 +172,7 @@ func (t *table) insert(data []byte, isFollower bool, h hash.Hash32, offset wal.O
 
 // Skip informs the table of a new offset so that we can store it
 func (t *table) skip(offset wal.Offset, source int) {
-	t.rowStore.insert(&insert{nil, nil, nil, offset, source})
+	t.rowStore.insert(&insert{offset: offset, source: source})
 }
 
 func (t *table) doInsert(ts time.Time, dims bytemap.ByteMap, vals bytemap.ByteMap, offset wal.Offset, source int) bool {
@@ -257,12 +257,14 @@ func (t *table) doInsert(ts time.Time, dims bytemap.ByteMap, vals bytemap.ByteMa
 	t.db.capMemorySize(true)
 	inserted := len(additionalVals)
 	if hasMainValue {
-		t.rowStore.insert(&insert{key, encoding.NewTSParams(ts, mainVals), dims, offset, source})
+		// one insert for the whole point: all of its values reach the memstore
+		// before a flush can record the point's offset
+		ins := &insert{key: key, vals: encoding.NewTSParams(ts, mainVals), metadata: dims, offset: offset, source: source}
+		for _, subVals := range additionalVals {
+			ins.more = append(ins.more, encoding.NewTSParams(ts, subVals))
+		}
+		t.rowStore.insert(ins)
 		inserted++
-	}
-	for _, subVals := range additionalVals {
-		verifPoint("insert.split")
-		t.rowStore.insert(&insert{key, encoding.NewTSParams(ts, subVals), dims, offset, source})
 	}
 	t.statsMutex.Lock()
 	t.stats.InsertedPoints += int64(inserted)
